@@ -9,11 +9,15 @@
 //! from the logged graph + AST (spec/CypherRead_Trace.tla).
 //!
 //! mode=c01  one execution per query (QueryEngine::execute)
-//! mode=c35  two executions: literals inlined, and the literal slots of position class `pm` as $parameters
-//! mode=c02  every script under {index steps executed / skipped} x {compact steps executed / skipped} x
+//! mode=c35  the inlined execution plus one execution through QueryExecutor::with_params per position class that holds
+//!           a literal of the query (where, ret, with, order, inline, unwind, list = a whole list literal as one
+//!           parameter, elem = every list element, skiplimit, all): `pouts`
+//! mode=c02  every script under {CreateIndex steps executed / skipped} x {Compact steps executed / skipped} x
 //!           {SAMYAMA_GRAPH_NATIVE unset / true} x {SAMYAMA_FILTER_PARALLEL_COST 0 / huge}, on the plain store and,
-//!           for queries marked `lin` (one connected MATCH, no aggregation/DISTINCT/LIMIT), on a store holding
-//!           `copies` disjoint copies of the history so that the >=256-row parallel filter path really runs.
+//!           for queries marked `lin` (one connected MATCH, plain RETURN), on a never-compacted store holding `copies`
+//!           disjoint copies of the history so that the >=256-row parallel filter path really runs.  The distinct
+//!           outcomes of a query are logged once each with the configurations that produced them (`outs`).
+//! A step {"op":"Cypher","text":..} executes raw text (development probe; not part of any generated script).
 use samyama::graph::{EdgeId, GraphStore, Label, NodeId, PropertyMap, PropertyValue};
 use samyama::query::executor::planner::{PlannerConfig, QueryPlanner};
 use samyama::query::executor::record::Value as QV;
@@ -315,7 +319,16 @@ impl World {
         match op {
             "Compact" => {
                 if do_compact {
-                    self.store.compact_adjacency();
+                    // compact_adjacency reports to stderr on every call: silence it for the duration of the call
+                    unsafe {
+                        let saved = libc::dup(2);
+                        let null = libc::open(b"/dev/null\0".as_ptr() as *const libc::c_char, libc::O_WRONLY);
+                        libc::dup2(null, 2);
+                        self.store.compact_adjacency();
+                        libc::dup2(saved, 2);
+                        libc::close(saved);
+                        libc::close(null);
+                    }
                 }
                 note(true);
             }
@@ -467,6 +480,11 @@ fn run(scripts: &str, trace: &str, opts: &Opts) -> Res<()> {
         for k in if any_lin { vec![1usize, copies] } else { vec![1usize] } {
             for idx in [false, true] {
                 for cmp in [false, true] {
+                    // The copies are disjoint logically but share the id free lists: a stale frozen entry of one copy
+                    // would be revived by a relationship of another copy, so the inflated store is never compacted.
+                    if k > 1 && cmp {
+                        continue;
+                    }
                     let mut w = World::new(k);
                     for (i, step) in s.steps.iter().enumerate() {
                         if gs(step, "op") != "Query" {
